@@ -85,7 +85,7 @@ theorem irregular_prefix (c : Cfg) (p w : Str) (hw : w ‚â† []) (hword : ‚àÄ x ‚à
       obtain ‚ü®x, xs, rfl‚ü© := List.exists_cons_of_ne_nil hw
       simp [boundary, hword x (by simp)]) hm
     simpa using this
-  simp only [irregular, if_true, h1, h2]
+  simp only [irregular, irregular2, if_true, h1, h2]
   cases c.table.lookup (w.map c.lower) <;> simp [List.append_assoc]
 
 #print axioms irregular_prefix
